@@ -23,8 +23,9 @@ RULES = {
     'R12': 'a logger that logs cannot dead-lock the writer: qb_log_thread_log_post takes the queue lock only after a test that the calling thread is not the one that is handing records to the targets (pthread_equal with the recorded writer), and every write of a queued record is made with the writer recorded',
     'R13': 'the number dropped is reported by whoever takes records off the queue: in every function that unlinks queued records (the logging thread, and the helper control operations, pause and stop write the backlog with) no path from an unlink to the release of the queue lock or to the return misses the report - the drop counter read, zeroed and its value handed to a printing call',
     'R14': 'a bracket closes what it opened: qb_log_thread_pause(t) and qb_log_thread_resume(t) each decide from the target\'s threaded switch whether there is a lock to take / release, so nothing between them - in the bracketing function or in anything it calls there - stores to that switch (evaluated for every request value of qb_log_ctl2); otherwise the resume of a target that was threaded at the pause releases nothing and the queue lock stays held: the next log call, control operation or qb_log_fini hangs',
+    'R15': 'the backlog counter is balanced: every record taken off the queue lowers logt_memory_used by exactly what qb_log_thread_log_post raised it by for that record (sizeof(record) + strlen(buffer) + 1, compared as linear forms), and the over-limit edge takes back exactly what it added - a counter that creeps upwards turns into "every message dropped" after enough traffic',
 }
-FLOORS = {'R14': 3, 'R13': 3, 'R1': 11, 'R2': 5, 'R3': 4, 'R4': 5, 'R5': 5, 'R6': 3, 'R7': 3, 'R8': 2, 'R9': 3, 'R10': 2, 'R11': 5, 'R12': 2}
+FLOORS = {'R15': 3, 'R14': 3, 'R13': 3, 'R1': 11, 'R2': 5, 'R3': 4, 'R4': 5, 'R5': 5, 'R6': 3, 'R7': 3, 'R8': 2, 'R9': 3, 'R10': 2, 'R11': 5, 'R12': 2}
 
 LOCK = 'logt_wthread_lock'
 GUARDED = ('logt_print_finished_records', 'logt_memory_used', 'logt_dropped_messages')
@@ -118,6 +119,7 @@ def run(ctx):
     r12(ctx, fns)
     r13(ctx, fns)
     r14(ctx)
+    r15(ctx, fns)
     r5(ctx)
     r6(ctx, fns)
     r7(ctx, fns)
@@ -764,3 +766,102 @@ def r14(ctx):
                   'nothing between pause and resume in %s changes the threaded switch they both test' % f.name,
                   '%s%s: between qb_log_thread_pause and qb_log_thread_resume %s changes the target\'s threaded switch: the resume no longer sees a threaded target, releases nothing, and the queue lock stays held'
                   % (f.name, bad[1] if bad else '', ('the call of ' + bad[0].callee) if bad and bad[0].kind == 'CALL' else 'a store'))
+
+
+def _lin(f, e, at, depth=0):
+    """e as a linear form {'strlen': k, 'self': k, 'const': c} over strlen(<a buffer>), the counter itself and constants (sizeof
+    folded); None if it is anything else.  Locals are followed through their single reaching definition."""
+    e = unwrap(e)
+    if not isinstance(e, dict) or depth > 6:
+        return None
+    c = cval(e)
+    if c is not None:
+        return {'const': c}
+    k = e.get('k')
+    if k == 'var':
+        if e['n'] == 'logt_memory_used':
+            return {'self': 1}
+        if e.get('sc') == 'l':
+            defs, entry = f.reaching_defs(e['n'], at)
+            if entry or len(defs) != 1:
+                return None
+            d = defs[0]
+            rhs = d.rhs if d.kind == 'STORE' else d.d.get('init')
+            if rhs is None or (d.kind == 'STORE' and d.d['op'] != '='):
+                return None
+            return _lin(f, rhs, d, depth + 1)
+        return None
+    if k == 'call' and callee_of(e) == 'strlen':
+        return {'strlen': 1}
+    if k == 'bin' and e['op'] in ('+', '-'):
+        l, r = _lin(f, e['l'], at, depth + 1), _lin(f, e['r'], at, depth + 1)
+        if l is None or r is None:
+            return None
+        sg = 1 if e['op'] == '+' else -1
+        out = dict(l)
+        for key, v in r.items():
+            out[key] = out.get(key, 0) + sg * v
+        return out
+    return None
+
+
+def _delta(f, ev):
+    """what a store to the counter adds to it, as a linear form (None: not of that shape)"""
+    op = ev.d['op']
+    if op in ('+=', '-='):
+        r = _lin(f, ev.rhs, ev)
+        if r is None or r.get('self'):
+            return None
+        return {k: (v if op == '+=' else -v) for k, v in r.items() if v}
+    if op == '=':
+        r = _lin(f, ev.rhs, ev)
+        if r is None:
+            return None
+        if r.get('self', 0) != 1:
+            return {'reset': 1} if not r.get('self') and not r.get('strlen') and r.get('const', 0) == 0 else None
+        return {k: v for k, v in r.items() if k != 'self' and v}
+    return None
+
+
+def _fmt(d):
+    return ' '.join('%+d*%s' % (v, k) if k != 'const' else '%+d' % v for k, v in sorted(d.items())) or '0'
+
+
+def r15(ctx, fns):
+    post = ctx.prog.fn('qb_log_thread_log_post')
+    sts = [ev for ev in post.events('STORE') if estr(ev.lhs) == 'logt_memory_used']
+    if not sts:
+        raise AnalysisBroken('qb_log_thread_log_post: no store to logt_memory_used')
+    deltas = [(ev, _delta(post, ev)) for ev in sts]
+    if any(d is None for (_e, d) in deltas):
+        raise AnalysisBroken('qb_log_thread_log_post: a store to logt_memory_used is not a linear form over strlen, sizeof and constants')
+    ups = [(ev, d) for (ev, d) in deltas if d.get('strlen', 0) > 0]
+    if len(ups) != 1:
+        raise AnalysisBroken('qb_log_thread_log_post: %d stores raise the counter' % len(ups))
+    up = ups[0][1]
+    neg = {k: -v for k, v in up.items()}
+    for ev, d in deltas:
+        if d is up:
+            continue
+        ctx.check('R15', 'post:over-limit-takes-back-what-it-added', d == neg, ev, 'the over-limit edge lowers the counter by what was added (%s)' % _fmt(up),
+                  'the over-limit edge changes the counter by %s after having added %s: each dropped message moves the counter for good' % (_fmt(d), _fmt(up)))
+    n = 0
+    for f in fns:
+        if f is post:
+            continue
+        for ev in f.events('STORE'):
+            if estr(ev.lhs) != 'logt_memory_used':
+                continue
+            d = _delta(f, ev)
+            if d == {'reset': 1}:
+                continue
+            n += 1
+            if d is None:
+                ctx.inconclusive('R15', '%s:takes-off-what-was-added' % f.name, ev, 'the change of logt_memory_used is not a linear form over strlen, sizeof and constants')
+                continue
+            ctx.check('R15', '%s:takes-off-what-was-added' % f.name, d == neg, ev,
+                      'a record taken off the queue lowers the counter by what queueing it added (%s)' % _fmt(up),
+                      'a record taken off the queue changes the counter by %s, queueing it had added %s: the difference stays in logt_memory_used for every '
+                      'message written, and once it has added up to the 512000 limit every further message is dropped although the queue is empty' % (_fmt(d), _fmt(up)))
+    if n == 0:
+        raise AnalysisBroken('no function lowers logt_memory_used')
